@@ -12,6 +12,7 @@ ENGINES = {
     'store': ('harness.store_checks', ['C08']),
     'key': ('harness.key_checks', ['C09', 'C10', 'C11', 'C17']),
     'valid': ('harness.valid_checks', ['C19']),
+    'round': ('harness.round_checks', ['C12']),
 }
 
 
